@@ -145,6 +145,7 @@ pub fn coef_strategy() -> BoxedStrategy<Coef> {
         30 => 0u16..4,
         4 => 4u16..12,
         2 => 88u16..98,
+        3 => 94u16..=96, // the codec's cap on a unary run, and one either side
         1 => 120u16..135,
         1 => 250u16..262,
         1 => 505u16..520,
